@@ -162,7 +162,7 @@ def _closure_args(fx, body, args, key_of, inherited):
     return out
 
 
-def build(body: Body, alpha: Alphabet, fx=None, depth=0, _prefix=(), _sinks=None, _stack=(), _into=None, _retval=False, _consts=None, _closures=None, _iret_as=None):
+def build(body: Body, alpha: Alphabet, fx=None, depth=0, _prefix=(), _sinks=None, _stack=(), _into=None, _retval=False, _consts=None, _closures=None, _iret_as=None, _tysub=None):
     """Event automaton of `body`. With `fx` and depth > 0, unlabelled calls to crate-local functions and unlabelled
     awaits of crate-local coroutines whose own automaton contains call/done events are inlined (bounded depth, no
     recursion): extracting a helper out of a loop does not change the language."""
@@ -292,7 +292,7 @@ def build(body: Body, alpha: Alphabet, fx=None, depth=0, _prefix=(), _sinks=None
             if t["unwind"] is not None:
                 n.add(cur, "unwind", unwind_s, loc)
         elif k == "switch":
-            labels = switch_labels(body, bi, t, alpha)
+            labels = switch_labels(body, bi, t, alpha, _tysub)
             corr = _corr_labels(fx, body, t) if (fx is not None and depth > 0) else {}
             if not corr and bi in vtsts:
                 corr = vtsts[bi]
@@ -311,7 +311,15 @@ def build(body: Body, alpha: Alphabet, fx=None, depth=0, _prefix=(), _sinks=None
                             # enum literals passed for parameters of the awaited async fn are fixed for this instance of
                             # its body: announce them (the body's matches on those parameters follow suit)
                             consts = _const_args(fx, body, ready[1])
-                            build(cb, alpha, fx, depth - 1, sub, (tgt(b), cancel_s, unwind_s), _stack + (body.name,), n, _consts=consts, _closures=cls_)
+                            after = tgt(b)
+                            vc = body.__dict__.get("_vcopies", {}).get(("await", ready[1]))
+                            if vc:
+                                # the awaited helper's result goes into a flag variable tested later: it takes over the variant
+                                # the helper announced
+                                after = ("vcopy", sub)
+                                n.add(after, "vcopy:%s|%s" % (vc, cb.name), tgt(b), loc)
+                                n.has_corr = True
+                            build(cb, alpha, fx, depth - 1, sub, (after, cancel_s, unwind_s), _stack + (body.name,), n, _consts=consts, _closures=cls_, _tysub=_awaited_tysub(fx, body, ready[1]))
                             entry = (sub, 0, 0)
                             prev = cur
                             for i_, (v_, _st) in sorted(consts.items()):
@@ -385,6 +393,7 @@ def _value_tests(body):
     if cache is not None:
         return cache
     vsets, vtsts = {}, {}
+    vcopies = body.__dict__.setdefault("_vcopies", {})
     for bi, blk in enumerate(body.blocks):
         t = blk["t"]
         if blk["c"] or t["k"] != "switch" or t["o"]["k"] not in ("copy", "move"):
@@ -438,6 +447,7 @@ def _value_tests(body):
             vtsts[bi] = {val: "vtst:%s|{%s}" % (vid, ",".join(sorted(x for x in vs if x))) for val, vs in table.items()}
             continue
         sites = {}
+        copies = []
         ok = len(defs) >= 2
         for d in defs:
             if d.kind == "agg" and not d.proj:
@@ -446,8 +456,20 @@ def _value_tests(body):
                 if st["r"].get("ak") == "adt" and v:
                     sites[d.site] = v
                     continue
+            if d.kind in ("await", "call") and not d.proj:
+                # what a (possibly spliced) crate-local callee handed back: `let step = select! { x => helper(x).await, .. }`
+                copies.append((d.kind, d.site[0]))
+                continue
             ok = False
             break
+        if ok and copies:
+            vid = "%s#%d" % (body.name, bi)
+            for site, v in sites.items():
+                vsets.setdefault(tuple(site), []).append("vset:%s|%s" % (vid, v))
+            for kc in copies:
+                vcopies[kc] = vid
+            vtsts[bi] = {val: "vtst:%s|{%s}" % (vid, ",".join(sorted(x for x in vs if x))) for val, vs in table.items()}
+            continue
         if not ok:
             # bool constants assigned directly
             sites = {}
@@ -468,6 +490,22 @@ def _value_tests(body):
         vtsts[bi] = {val: "vtst:%s|{%s}" % (vid, ",".join(sorted(x for x in vs if x))) for val, vs in table.items()}
     body.__dict__["_vt_cache"] = (vsets, vtsts)
     return vsets, vtsts
+
+
+def _awaited_tysub(fx, body, poll_bb):
+    """{type parameter of the awaited async fn: the type the caller instantiates it with}"""
+    for o in body.polled_future_origins(poll_bb, plumbing=True):
+        if o.kind != "call":
+            return None
+        ct = body.call_at(o)
+        h = fx.callee_fn(ct)
+        gen = (h or {}).get("generics") or []
+        ga = ct.get("gargs") or []
+        if h is None or not gen or len(ga) < len(gen):
+            return None
+        sub = {gen[i]: ga[len(ga) - len(gen) + i] for i in range(len(gen))}
+        return {k: v for k, v in sub.items() if k != v and len(k) <= 3} or None
+    return None
 
 
 def _awaited_closure_args(fx, body, poll_bb, inherited):
@@ -665,12 +703,21 @@ OUTCOME_PRESERVING = {"core::result::{impl#0}::map_err", "core::result::{impl#0}
 def _src_labels(body, origs, alpha, depth=0):
     """labels of the calls / awaits that produced a value (looking through `?`)"""
     out = set()
+    fx_ = getattr(alpha, "_fx", None)
     for o in origs:
         if o.kind == "await":
             for (_, ct) in body.awaited_calls(o.site[0]):
                 lab = alpha.call_label(ct)
                 if lab:
                     out.add(lab)
+                elif fx_ is not None and depth < 3:
+                    # an awaited crate-local async fn that hands back the outcome of a labelled call
+                    # (`async fn start_actor(..) -> DynResult<()> { log; actor.started(ctx).await }`)
+                    h = fx_.callee_fn(ct)
+                    kids = [c for c in fx_.children_of(h["def"]) if c["kind"] == "coroutine"] if (h is not None and h.get("is_async")) else []
+                    if len(kids) == 1 and "pre" in kids[0]:
+                        cb = Body(kids[0])
+                        out |= _src_labels(cb, cb.origins([0]), alpha, depth + 1)
         elif o.kind == "call":
             ct = body.call_at(o)
             callee = ct.get("callee") or ""
@@ -760,7 +807,7 @@ def flag_encoding(fx, adt):
     return cache[adt]
 
 
-def switch_labels(body, bi, t, alpha):
+def switch_labels(body, bi, t, alpha, tysub=None):
     """map switch value (string) / 'otherwise' -> label"""
     labels = {}
     o = t["o"]
@@ -855,8 +902,14 @@ def switch_labels(body, bi, t, alpha):
             srcs = _src_labels(body, scrut_origs, alpha)
             suffix = ("@" + "|".join(sorted(srcs))) if srcs else ""
             if not suffix:
+                ty_ = r.get("ty", "")
+                if tysub:
+                    # a spliced generic helper: its type parameters stand for what the caller instantiated them with
+                    import re as _re
+                    for k_, v_ in tysub.items():
+                        ty_ = _re.sub(r"(?<![\w:])%s(?![\w:])" % _re.escape(k_), lambda _m, v__=v_: v__, ty_)
                 for sub, tag in alpha.type_tags:
-                    if sub in r.get("ty", ""):
+                    if sub in ty_:
                         suffix = "@" + tag
                         break
             seen = set()
@@ -960,6 +1013,14 @@ class _Correlated(Spec):
         if label.startswith("vset:"):
             vid, v = label[5:].rsplit("|", 1)
             return (ist, tuple(sorted(dict(corr, **{vid: v}).items())))
+        if label.startswith("vcopy:"):
+            vid, callee = label[6:].rsplit("|", 1)
+            d = dict(corr)
+            if d.get(callee) is not None:
+                d[vid] = d[callee]
+            else:
+                d.pop(vid, None)
+            return (ist, tuple(sorted(d.items())))
         if label.startswith("vtst:"):
             vid, v = label[5:].rsplit("|", 1)
             have = dict(corr).get(vid)
